@@ -35,6 +35,7 @@ type ftRole struct {
 	inbound  []channel.Inbound
 	outbound []channel.Outbound
 	vars     map[string]string
+	task     *Task // what SetTask was last given (the real taskRole.SetTask is a plain store as well)
 }
 
 func (r *ftRole) UpdateStatus(s Status) {
@@ -50,7 +51,7 @@ func (r *ftRole) UpdateState(s sm.State) {
 func (r *ftRole) GetPath() string                             { return r.path }
 func (r *ftRole) GetTaskClass() string                        { return "class-" + r.path }
 func (r *ftRole) GetTaskTraits() Traits                       { return r.traits }
-func (r *ftRole) SetTask(*Task)                               {}
+func (r *ftRole) SetTask(t *Task)                             { r.task = t }
 func (r *ftRole) GetEnvironmentId() uid.ID                    { return r.envId }
 func (r *ftRole) CollectOutboundChannels() []channel.Outbound { return r.outbound }
 func (r *ftRole) CollectInboundChannels() []channel.Inbound   { return r.inbound }
